@@ -588,6 +588,66 @@ def rule_k9(repo):
     return res
 
 
+def rule_k10(repo):
+    """Term.subst replaces a variable by the given term as it is, also under binders: it does not lift
+    loose bound variables (subst_bound does).  A rule that hands a caller-supplied instantiation to it must
+    therefore test every term of the instantiation for closedness, or a loose Bound is captured by the
+    binders of the premise.  (get_type() is no such test: it does not look into argument positions.)"""
+    res = RuleResult('C01.K10', 'the substitution rule puts only closed terms under the binders of the premise', floor=2)
+    subst = repo.func(TERM, 'Term.subst')
+    sp = subst.params()[1]
+    # the tables of the instantiation whose entries are put into the term
+    tables = set()
+    for f in [subst] + list(subst.nested.values()):
+        for r in ast.walk(f.node):
+            if isinstance(r, ast.Return) and isinstance(r.value, ast.Subscript):
+                pth = path_of(r.value.value) or ''
+                if pth == sp or pth.startswith(sp + '.'):
+                    tables.add(pth[len(sp):])          # '' for inst[..], '.var_inst' for inst.var_inst[..]
+    need(tables, 'Term.subst: no table of the instantiation is read')
+    lifts = any(isinstance(c, ast.Call) and call_attr(c) in ('lift', 'incr_boundvars', 'shift') for c in ast.walk(subst.node))
+    func = repo.func(THM, 'Thm.substitution')
+    cfg = cfg_of(func.node)
+    inst = func.params()[0]
+    uses = [n for n in cfg.nodes if n.kind == 'stmt' and any(
+        isinstance(c, ast.Call) and call_attr(c) == 'subst' and c.args and is_name(c.args[0], inst) for c in ast.walk(n.ast))]
+    need(uses, 'Thm.substitution: no call X.subst(%s) found' % inst)
+    for tb in sorted(tables):
+        label = inst + tb
+        if lifts:
+            res.add('%s :: Thm.substitution :: closed(%s)' % (THM, label), True, 'Term.subst lifts loose bound variables itself', func.loc, nontrivial=False)
+            continue
+        # a test `t.is_open()` over the values of this table, whose true side cannot reach a use
+        guards = []
+        for t in cfg.test_nodes():
+            e = t.ast
+            # any(v.is_open() for v in <values>)  or  v.is_open() inside a loop over <values>
+            subj_iter = None
+            gnode = t
+            if isinstance(e, ast.Call) and call_name(e) == 'any' and e.args and isinstance(e.args[0], (ast.GeneratorExp, ast.ListComp)) and \
+                    any(isinstance(c, ast.Call) and call_attr(c) == 'is_open' for c in ast.walk(e.args[0].elt)):
+                subj_iter = ' '.join(src(g.iter, 200) for g in e.args[0].generators)
+            elif isinstance(e, ast.Call) and call_attr(e) == 'is_open' and isinstance(e.func.value, ast.Name):
+                for it in cfg.nodes_of_kind('iter'):
+                    if e.func.value.id in {x.id for x in ast.walk(it.ast.target) if isinstance(x, ast.Name)} and \
+                            it.ast.lineno <= t.lineno <= (it.ast.end_lineno or 0):
+                        subj_iter = src(it.ast.iter, 200)
+                        gnode = it          # the loop as a whole is what every path has to pass
+            if subj_iter is None:
+                continue
+            covers = ('%s.values()' % label in subj_iter or '%s.items()' % label in subj_iter) and \
+                (tb != '' or ('%s.values()' % inst) in subj_iter.replace('%s.var_inst.values()' % inst, '') or
+                 ('%s.items()' % inst) in subj_iter.replace('%s.var_inst.items()' % inst, ''))
+            if covers and not any(u.id in cfg.reach_from([b for b, l in t.succ if l == 'true']) for u in uses):
+                guards.append(gnode)
+        ok = bool(guards) and all(cfg.path_avoiding(u, skip_nodes=guards) is None for u in uses)
+        res.add('%s :: Thm.substitution :: closed(%s)' % (THM, label), ok,
+                'every entry is tested with is_open() before the instantiation is applied' if ok else
+                'entries of `%s` are substituted under the binders of the premise without a closedness test: with ?x := h (Bound 0), '
+                '|- !y. (%%w. ?x) a = ?x becomes |- !y. (%%w. h w) a = h y, which is false' % label, func.loc)
+    return res
+
+
 def rules(repo):
     return [rule_k1(repo), rule_k2(repo), rule_k3(repo), rule_k4(repo), rule_k5(repo), rule_k6(repo),
-            rule_k8(repo), rule_k9(repo)]
+            rule_k8(repo), rule_k9(repo), rule_k10(repo)]
